@@ -30,7 +30,7 @@ std::string h_gen(Src& s) {
     int kind = witness ? N_BUF : (int)s.weighted({ W[0], W[1], W[2], W[3], W[4], W[5], W[6], W[7], W[8], W[9], W[10], W[11], W[12] });
     int par = s.range(1, 4); if (par < 2 && s.flip()) par = 2;
     int nthr = 1 + (int)s.weighted({ 3, 5, 2 }); if (witness && nthr < 2) nthr = 2;
-    int sink = (int)s.weighted({ 3, 5, 1 }), swork = s.range(0, 6), via = (int)s.weighted({ 5, 2, 2 }), thr = s.range(1, 4), fb = 0, nsink = 2;
+    int sink = (int)s.weighted({ 3, 5, 1 }), swork = s.range(0, 6), via = (int)s.weighted({ 5, 2, 2 }), thr = s.range(1, 4), fb = 0, nsink = 2; bool idec = false;   // idec: limiter_node<Msg, int> with integral decrements of 1..3
     bool use_res = false, use_get = true, excl = false;
     if (buflike(kind)) {
         use_res = s.choose(3) != 0; use_get = s.choose(4) != 0;
@@ -41,7 +41,7 @@ std::string h_gen(Src& s) {
         sink = witness ? (int)s.weighted({ 0, 2, 5 }) : (int)s.weighted({ 2, 4, 3 }); if (sink == 1) swork = s.range(4, 24);
         if (kind == N_BUF && !witness && use_res && sink == 1) { sink = 0; excl = true; }
     } else if (joinlike(kind)) { if (sink == 2) sink = 1; if (kind == N_JR) via = 0; if (sink == 1) swork = s.range(3, 20); }
-    else if (kind == N_LIM) { fb = s.choose(3) == 0; via = (int)s.weighted({ 3, 0, 0, 4 }); /* via=3: queue_node predecessor */ sink = (int)s.weighted({ 3, via == 3 ? 0u : 2u, 0, 3 }); if (sink == 1) swork = s.range(3, 15); }
+    else if (kind == N_LIM) { fb = s.choose(3) == 0; idec = !fb && s.coin(2); via = (int)s.weighted({ 3, 0, 0, 4 }); /* via=3: queue_node predecessor */ sink = (int)s.weighted({ 3, via == 3 ? 0u : 2u, 0, 3 }); if (sink == 1) swork = s.range(3, 15); }
     else if (kind == N_OW || kind == N_WO) { sink = 0; }
     else if (kind == N_BC) { sink = s.flip() ? 0 : 3; nsink = s.range(2, 3); via = via == 2 ? 0 : via; }
     else { sink = 0; }
@@ -67,7 +67,7 @@ std::string h_gen(Src& s) {
                 else if (kind == N_JK) op.aux = (int)s.choose(3);
             } else if (c == 1) { op.c = 'G'; op.port = kind == N_JR ? (int)s.choose(2) : 0; }
             else if (c == 2) { op.c = 'R'; holding = true; }
-            else if (c == 3) op.c = 'D';
+            else if (c == 3) { op.c = 'D'; op.k = idec ? s.range(1, 3) : 1; }
             else if (c == 4) { op.c = 'E'; attach_done = true; }
             else { op.c = 'W'; op.k = s.range(1, 6); }
             th[t].push_back(op);
@@ -83,7 +83,7 @@ std::string h_gen(Src& s) {
         }
     }
     char b[256];
-    snprintf(b, sizeof b, "nut %s par=%d sink=%d swork=%d via=%d thr=%d fb=%d nsink=%d witness=%d excl=%d\n", KN[kind], par, sink, swork, via, thr, fb, nsink, witness ? 1 : 0, excl ? 1 : 0);
+    snprintf(b, sizeof b, "nut %s par=%d sink=%d swork=%d via=%d thr=%d fb=%d nsink=%d witness=%d excl=%d idec=%d\n", KN[kind], par, sink, swork, via, thr, fb, nsink, witness ? 1 : 0, excl ? 1 : 0, idec ? 1 : 0);
     std::string o = b;
     for (int t = 0; t < nthr; t++) {
         o += "t " + std::to_string(t);
@@ -91,6 +91,7 @@ std::string h_gen(Src& s) {
             if (op.c == 'P') o += " P" + std::to_string(op.port) + ":" + std::to_string(op.id) + ":" + std::to_string(op.aux);
             else if (op.c == 'G') o += " G" + std::to_string(op.port);
             else if (op.c == 'W') o += " W" + std::to_string(op.k);
+            else if (op.c == 'D' && idec) o += " D" + std::to_string(op.k);
             else o += std::string(" ") + op.c;
         }
         o += "\n";
@@ -156,7 +157,10 @@ typedef multifunction_node<Msg, std::tuple<Msg>, queueing> FeederNode;
 struct FeedB { int port; template <class P> void operator()(const Msg& m, P&) const { vs_work(1); do_put(g_port[port], m.id, g_via == 1 ? 4 + port : 6); } };
 static FeederNode* g_feeder[2];
 static sender<Msg>* g_sender[2];                                   // what G/R/L/C talk to (buffers; jr: the two queues; ow/wo)
+static int g_idec = 0; static limiter_node<Msg, int>* g_limi = nullptr;     // idec=1: integral decrementer, a decrement may exceed the current count
 static limiter_node<Msg>* g_lim; static overwrite_node<Msg>* g_ow; static SinkNode<Msg, SinkB>* g_late;
+static void lim_dec(int k) { g_decs += k; if (g_limi) g_limi->decrementer().try_put(k); else g_lim->decrementer().try_put(continue_msg()); }
+static receiver<Msg>* lim_recv() { return g_limi ? static_cast<receiver<Msg>*>(g_limi) : static_cast<receiver<Msg>*>(g_lim); }
 static std::vector<std::vector<GOp>> T;
 
 static void run_thread(int t) {
@@ -176,7 +180,7 @@ static void run_thread(int t) {
             Call c{ op.c, t, vs_now(), 0, true, held, 0 }; if (op.c == 'L') g_sender[0]->try_release(); else g_sender[0]->try_consume(); c.resp = vs_now(); CL.push_back(c);
             if (op.c == 'C') { uint64_t rinv = 0, rresp = 0; for (auto& x : CL) if (x.c == 'R' && x.ok && x.id == held && x.thread == t) { rinv = x.inv; rresp = x.resp; } EX.push_back(Exit{ held, -1, 2, 0, rinv, rresp, t, -1 }); }
             held = -1; break; }
-        case 'D': { Call c{ 'D', t, vs_now(), 0, true, -1, 0 }; g_decs++; g_lim->decrementer().try_put(continue_msg()); c.resp = vs_now(); CL.push_back(c); break; }
+        case 'D': { Call c{ 'D', t, vs_now(), 0, true, -1, 0 }; lim_dec(op.k > 0 ? op.k : 1); c.resp = vs_now(); CL.push_back(c); break; }
         case 'E': { Call c{ 'E', t, vs_now(), 0, true, -1, 0 }; make_edge(*g_ow, g_late->in()); c.resp = vs_now(); CL.push_back(c); break; }
         }
     }
@@ -193,7 +197,7 @@ void h_run(Case& c) {
         auto w = split_ws(l); if (w.empty()) continue;
         if (w[0] == "nut") {
             for (int k = 0; k < N_KINDS; k++) if (w[1] == KN[k]) g_kind = k;
-            par = (int)kvl(l, "par", 2); g_sinkpol = (int)kvl(l, "sink", 0); g_swork = (int)kvl(l, "swork", 0); g_via = (int)kvl(l, "via", 0); g_thr = (int)kvl(l, "thr", 1); g_fb = (int)kvl(l, "fb", 0); g_nsink = (int)kvl(l, "nsink", 2); g_witness = (int)kvl(l, "witness", 0); g_excl = (int)kvl(l, "excl", 0);
+            par = (int)kvl(l, "par", 2); g_sinkpol = (int)kvl(l, "sink", 0); g_swork = (int)kvl(l, "swork", 0); g_via = (int)kvl(l, "via", 0); g_thr = (int)kvl(l, "thr", 1); g_fb = (int)kvl(l, "fb", 0); g_nsink = (int)kvl(l, "nsink", 2); g_witness = (int)kvl(l, "witness", 0); g_excl = (int)kvl(l, "excl", 0); g_idec = (int)kvl(l, "idec", 0);
         } else if (w[0] == "t") {
             int t = atoi(w[1].c_str()); if ((int)T.size() <= t) T.resize(t + 1);
             for (size_t i = 2; i < w.size(); i++) {
@@ -201,6 +205,7 @@ void h_run(Case& c) {
                 if (op.c == 'P') { sscanf(w[i].c_str() + 1, "%d:%d:%d", &op.port, &op.id, &op.aux); if ((int)IT.size() <= op.id) IT.resize(op.id + 1); IT[op.id].id = op.id; IT[op.id].port = op.port; IT[op.id].aux = op.aux; }
                 else if (op.c == 'G') op.port = atoi(w[i].c_str() + 1);
                 else if (op.c == 'W') op.k = atoi(w[i].c_str() + 1);
+                else if (op.c == 'D') op.k = w[i].size() > 1 ? atoi(w[i].c_str() + 1) : 1;
                 T[t].push_back(op);
             }
         }
@@ -223,9 +228,10 @@ void h_run(Case& c) {
         make_edge(*q0, input_port<0>(*j)); make_edge(*q1, input_port<1>(*j)); g_port[0] = q0; g_port[1] = q1; g_sender[0] = q0; g_sender[1] = q1;
         auto* s = new SinkNode<Msg2, SinkB2>(g_sinkpol, 0); make_edge(*j, s->in()); break; }
     case N_LIM: {
-        g_lim = new limiter_node<Msg>(*G, (size_t)g_thr); auto* s = new SinkNode<Msg, SinkB>(g_sinkpol, 0); make_edge(*g_lim, s->in());
-        if (g_fb) make_edge(s->out(), g_lim->decrementer());
-        if (g_via == 3) { auto* q = new queue_node<Msg>(*G); make_edge(*q, *g_lim); g_port[0] = q; g_sender[0] = q; } else g_port[0] = g_lim;
+        auto* s = new SinkNode<Msg, SinkB>(g_sinkpol, 0);
+        if (g_idec) { g_limi = new limiter_node<Msg, int>(*G, (size_t)g_thr); make_edge(*g_limi, s->in()); }
+        else { g_lim = new limiter_node<Msg>(*G, (size_t)g_thr); make_edge(*g_lim, s->in()); if (g_fb) make_edge(s->out(), g_lim->decrementer()); }
+        if (g_via == 3) { auto* q = new queue_node<Msg>(*G); if (g_limi) make_edge(*q, *g_limi); else make_edge(*q, *g_lim); g_port[0] = q; g_sender[0] = q; } else g_port[0] = lim_recv();
         break; }
     case N_OW: case N_WO: {
         g_ow = g_kind == N_OW ? new overwrite_node<Msg>(*G) : new write_once_node<Msg>(*G); g_port[0] = g_ow; g_sender[0] = g_ow;
@@ -391,6 +397,12 @@ static void judge_join() {
 }
 
 static void judge_lim() {
+    if (g_limi) {
+        // saturate: keep putting fresh messages at quiescence; whatever decrement credit the node still remembers is used up now, and the sink-side
+        // oracle (forwarded - sum of the decrements invoked <= threshold) sees any credit that was counted twice
+        long budget = g_thr + g_decs + 3;
+        for (long i = 0; i < budget; i++) { int pid = (int)IT.size(); IT.push_back(Item()); IT[pid].id = pid; long before = g_forwarded; do_put(g_port[0], pid, 7); G->wait_for_all(); if (g_forwarded == before) break; }
+    }
     std::vector<int> seen(IT.size(), 0); for (auto& e : EX) if (e.how == 0) seen[item(e.id).id]++;
     for (auto& it : IT) if (it.id >= 0 && seen[it.id] > 1) vs_violation("DUP-ITEM", "limiter forwarded item %d %d times", it.id, seen[it.id]);
     if (g_via != 3) {
@@ -404,10 +416,11 @@ static void judge_lim() {
             }
         }
         // liveness probe: after threshold-many decrements at quiescence the counter is 0 and a fresh put must pass
-        for (int i = 0; i < g_thr; i++) { g_decs++; g_lim->decrementer().try_put(continue_msg()); }
+        if (g_limi) lim_dec(g_thr + 1);       // more than the count can be: clamped to 0 (no put is in flight, nothing is remembered)
+        else for (int i = 0; i < g_thr; i++) lim_dec(1);
         G->wait_for_all();
         int pid = (int)IT.size(); IT.push_back(Item()); IT[pid].id = pid; long before = g_forwarded;
-        do_put(g_lim, pid, 7); G->wait_for_all();
+        do_put(lim_recv(), pid, 7); G->wait_for_all();
         if (!IT[pid].ok || g_forwarded != before + 1) vs_violation("LIMITER-STUCK", "limiter (threshold %d) at quiescence after %d decrements: a fresh try_put returned %d and %ld messages were forwarded", g_thr, g_thr, (int)IT[pid].ok, g_forwarded - before);
     } else {
         long acc = 0; for (auto& it : IT) if (it.id >= 0 && it.done) { if (!it.ok) vs_violation("PUT-REJECTED", "queue_node in front of the limiter rejected item %d", it.id); acc++; }
@@ -416,7 +429,7 @@ static void judge_lim() {
         if (left > 0 && g_fb) vs_violation("LIMITER-STUCK", "limiter with a decrement edge from its successor: %ld messages are still waiting in the queue at quiescence", left);
         if (left > 0 && g_forwarded < g_thr) vs_violation("LIMITER-STUCK", "limiter (threshold %d): %ld messages wait in the queue although only %ld were ever forwarded", g_thr, left, g_forwarded);
         for (long i = 0; i < left; i++) {      // saturated at quiescence: every decrement must release exactly one waiting message
-            long before = g_forwarded; g_decs++; g_lim->decrementer().try_put(continue_msg()); G->wait_for_all();
+            long before = g_forwarded; lim_dec(1); G->wait_for_all();
             if (g_forwarded != before + 1) vs_violation("LIMITER-STUCK", "saturated limiter (threshold %d) with %ld waiting messages: one decrement released %ld messages", g_thr, left - i, g_forwarded - before);
         }
         drain_into_exits(0);
